@@ -2826,7 +2826,76 @@ int32 matrixUserCertValidator(ssl_t *ssl, int32 alert,
 /*
     The user callback
  */
-    return certValidator(ssl, subjectCert, status);
+    status = certValidator(ssl, subjectCert, status);
+    if (alert != SSL_ALERT_NONE &&
+        (status == 0 || status == SSL_ALLOW_ANON_CONNECTION))
+    {
+        /* The callback accepted the failure it was shown.  A chain can fail
+           in more than one way at once (expired AND issued by an unknown CA
+           or for another name): an acceptance covers only the alert that was
+           given, so every other kind of failure is presented as well */
+        int32 shown[8], nShown = 0, other, i, rc;
+        psX509Cert_t *cert;
+
+        shown[nShown++] = alert;
+        for (cert = subjectCert; cert != NULL; cert = cert->next)
+        {
+            int32 cand[3], nCand = 0, c;
+
+            switch (cert->authStatus)
+            {
+            case PS_CERT_AUTH_FAIL_SIG:
+            case PS_CERT_AUTH_FAIL_AUTHKEY:
+            case PS_CERT_AUTH_FAIL_PATH_LEN:
+                cand[nCand++] = SSL_ALERT_BAD_CERTIFICATE;
+                break;
+            case PS_CERT_AUTH_FAIL_REVOKED:
+                cand[nCand++] = SSL_ALERT_CERTIFICATE_REVOKED;
+                break;
+            case PS_CERT_AUTH_FAIL_BC:
+            case PS_CERT_AUTH_FAIL_DN:
+                cand[nCand++] = (cert->next != NULL) ?
+                    SSL_ALERT_BAD_CERTIFICATE : SSL_ALERT_UNKNOWN_CA;
+                break;
+            default:
+                break;
+            }
+            if (cert->authFailFlags & PS_CERT_AUTH_FAIL_DATE_FLAG)
+            {
+                cand[nCand++] = SSL_ALERT_CERTIFICATE_EXPIRED;
+            }
+            if (cert->authFailFlags & PS_CERT_AUTH_FAIL_SUBJECT_FLAG)
+            {
+                cand[nCand++] = SSL_ALERT_CERTIFICATE_UNKNOWN;
+            }
+            for (c = 0; c < nCand; c++)
+            {
+                other = cand[c];
+                for (i = 0; i < nShown; i++)
+                {
+                    if (shown[i] == other)
+                    {
+                        break;
+                    }
+                }
+                if (i < nShown || nShown >= 8)
+                {
+                    continue;
+                }
+                shown[nShown++] = other;
+                rc = certValidator(ssl, subjectCert, other);
+                if (rc == SSL_ALLOW_ANON_CONNECTION)
+                {
+                    status = rc;
+                }
+                else if (rc != 0)
+                {
+                    return rc;
+                }
+            }
+        }
+    }
+    return status;
 }
 #endif /* USE_CERT_VALIDATE */
 
